@@ -213,7 +213,13 @@ def judgeOp (j : JSt) (op : String) (rec : String) : JSt × String :=
       let outs := match rf with | ["rc", _, "out", oh] => unhexLines oh | _ => []
       let v : List Violation := if outs.isEmpty then [] else [⟨"C09", "a reload wrote to the server channel"⟩]
       if bad || !ok then (j, fmtViol v)
-      else ({ j with conf := cfg, t := { j.t with services := if j.mods ≥ 1 then servicesOf cfg else [] } }, fmtViol v)
+      else
+        -- a service the new file no longer names but that still owes some live client an answer
+        -- stays what it was when it was asked (its late answer is legitimate)
+        let fresh := if j.mods ≥ 1 then servicesOf cfg else []
+        let owed := j.t.services.filter fun sv =>
+          !(fresh.any (·.1 == sv.1)) && j.t.live.any (fun i => i.outstanding.contains sv.1)
+        ({ j with conf := cfg, t := { j.t with services := fresh ++ owed } }, fmtViol v)
     | ["eof"] =>
       let v : List Violation :=
         (if rf.contains "clean=1" then [] else [⟨"C08", "end of input did not lead to a clean exit"⟩])
